@@ -283,6 +283,22 @@ pub fn combo_configs(quick: bool) -> Vec<Config> {
             out.push(Config { name: format!("DynWeighted{w:?}"), run: direct(d), admits, member_ok, alpha: AlphaKind::Ranges, extreme_pass: false });
         }
     }
+    // weights whose total does not fit in usize (stepwise built): no documented error covers it, so any
+    // error or any member is accepted -- but never a panic
+    for (name, w) in [("huge1", vec![usize::MAX, 1]), ("huge2", vec![usize::MAX, usize::MAX]), ("huge3", vec![usize::MAX / 2 + 1, usize::MAX / 2 + 1, 1]), ("huge4", vec![1, usize::MAX])] {
+        let mut d: DynWeighted<Pop> = DynWeighted::new(Best, w[0]);
+        for x in &w[1..] {
+            d = d.with_selector(Worst, *x);
+        }
+        out.push(Config {
+            name: format!("DynWeighted/{name}"),
+            run: direct(d),
+            admits: Box::new(|_| set(&[ErrKind::Empty, ErrKind::ZeroWeight, ErrKind::Other, ErrKind::TournamentSize, ErrKind::MissingCase])),
+            member_ok: Box::new(|n| n > 0),
+            alpha: AlphaKind::Ranges,
+            extreme_pass: false,
+        });
+    }
     out
 }
 
